@@ -49,3 +49,9 @@ claim("C20",
       "Three genuine deviations are recorded as known findings and matched only when the observed value equals the exact shipped formula (truncated CrFUU series pinned by tests, c-independent CondEvap, textbook both-mixed relation which has a maximum).",
       "bounded-exhaustive lattice enumeration of the real functions with algebraic oracles",
       "DESIGN.md section 4 C20")
+
+claim("C17",
+      "clean_composite_curve on every polyline with strictly descending temperatures and H in {0..3}^n (n<=6 quick / 7 thorough), at scales 1 and 1e-3 and with single-point perturbations of 5e-7 / 2e-6: kept points are original points in order and the function through them (end-value extension) equals the original at every original point within 1e-6. get_piecewise_data_points on every polyline y in {0..3}^n x eps {0.1,0.5,1} x hot/cold plus five parametrised families of 11/50(/500) points in both listing orders: end points, order, point-to-polyline deviation <= eps, one-sided eps/10 rule.",
+      "Two genuine deviations from the one-sided rule are known findings matched by cause class (refinement skipped for <=10 breakpoints and result is the plain RDP subsequence; refinement ran and excess < eps/2).",
+      "bounded-exhaustive polyline enumeration with geometric oracles",
+      "DESIGN.md section 4 C17")
